@@ -487,6 +487,85 @@ func countedLoops(fn *ssa.Function) (out []struct {
 	return
 }
 
+// indexBoundOnClone: idx is boxed and stored as Vars[key] of a context that (*EvalContext).Clone() produced at a call
+// accepted by where; the clone-and-bind may sit in a helper that receives idx and returns the clone it bound it on.
+func indexBoundOnClone(p *Prog, idx ssa.Value, where func(*ssa.Call) bool, varKey string, depth int) bool {
+	refs := idx.Referrers()
+	if refs == nil || depth > 2 {
+		return false
+	}
+	for _, ref := range *refs {
+		switch x := ref.(type) {
+		case *ssa.MakeInterface:
+			for _, r2 := range *x.Referrers() {
+				mu, ok := r2.(*ssa.MapUpdate)
+				if !ok || mu.Value != ssa.Value(x) {
+					continue
+				}
+				u, ok := mu.Map.(*ssa.UnOp)
+				if !ok {
+					continue
+				}
+				fa, ok := u.X.(*ssa.FieldAddr)
+				if !ok {
+					continue
+				}
+				c, ok := fa.X.(*ssa.Call)
+				if !ok {
+					continue
+				}
+				sc := c.Common().StaticCallee()
+				if sc == nil || !p.InRepo(sc) || p.FuncName(sc) != "bkl.(*EvalContext).Clone" || !where(c) {
+					continue
+				}
+				switch k := mu.Key.(type) {
+				case *ssa.Const:
+					if varKey != "" && k.Value != nil && strings.Trim(k.Value.ExactString(), `"`) == varKey {
+						return true
+					}
+				case *ssa.Parameter:
+					if varKey == "" && p.ParamName(k) == "name" {
+						return true
+					}
+				}
+			}
+		case *ssa.Call:
+			sc := x.Common().StaticCallee()
+			if sc == nil || !p.InRepo(sc) || sc.Blocks == nil || !where(x) || x.Common().IsInvoke() {
+				continue
+			}
+			for ai, a := range x.Common().Args {
+				if a != idx || ai >= len(sc.Params) {
+					continue
+				}
+				// the helper returns the very clone it bound the index on
+				var clone *ssa.Call
+				okRet := true
+				for _, b := range sc.Blocks {
+					for _, in := range b.Instrs {
+						if rt, ok := in.(*ssa.Return); ok {
+							c, isC := ssa.Value(nil), false
+							if len(rt.Results) > 0 {
+								c = rt.Results[0]
+								_, isC = c.(*ssa.Call)
+							}
+							if !isC || (clone != nil && c != ssa.Value(clone)) {
+								okRet = false
+							} else {
+								clone = c.(*ssa.Call)
+							}
+						}
+					}
+				}
+				if okRet && clone != nil && indexBoundOnClone(p, sc.Params[ai], func(c *ssa.Call) bool { return c == clone }, varKey, depth+1) {
+					return true
+				}
+			}
+		}
+	}
+	return false
+}
+
 func ruleC12Loops(p *Prog, r *Result) {
 	type spec struct {
 		fn, varKey string
@@ -522,38 +601,7 @@ func ruleC12Loops(p *Prog, r *Result) {
 		}
 		r.Check(okBound, "C12.loop", s.fn+" / loop bound is the $repeat count", pos, "i < n with n the count", "the loop bound is not the $repeat count itself")
 		// the index bound to the variable is i itself, on a context cloned inside the iteration
-		okBind := false
-		for _, ref := range *l.phi.Referrers() {
-			mi, ok := ref.(*ssa.MakeInterface)
-			if !ok {
-				continue
-			}
-			for _, r2 := range *mi.Referrers() {
-				mu, ok := r2.(*ssa.MapUpdate)
-				if !ok || mu.Value != ssa.Value(mi) {
-					continue
-				}
-				// map is ec2.Vars of a Clone() made in the loop
-				if u, ok := mu.Map.(*ssa.UnOp); ok {
-					if fa, ok := u.X.(*ssa.FieldAddr); ok {
-						if c, ok := fa.X.(*ssa.Call); ok {
-							if sc := c.Common().StaticCallee(); sc != nil && p.InRepo(sc) && p.FuncName(sc) == "bkl.(*EvalContext).Clone" && inLoop(l.hdr, c.Block()) {
-								keyOK := false
-								switch k := mu.Key.(type) {
-								case *ssa.Const:
-									keyOK = s.varKey != "" && k.Value != nil && strings.Trim(k.Value.ExactString(), `"`) == s.varKey
-								case *ssa.Parameter:
-									keyOK = s.varKey == "" && p.ParamName(k) == "name"
-								}
-								if keyOK {
-									okBind = true
-								}
-							}
-						}
-					}
-				}
-			}
-		}
+		okBind := indexBoundOnClone(p, l.phi, func(c *ssa.Call) bool { return inLoop(l.hdr, c.Block()) }, s.varKey, 0)
 		r.Check(okBind, "C12.loop", s.fn+" / each copy sees its own index", pos, "Vars[name] = i on a context cloned inside the iteration", "the index is not bound (as i itself, under the variable's name) on a per-copy clone of the context: copies share a context or see a shifted index")
 	}
 	// sibling cross-check through PS: results appended in iteration order / stored under the evaluated key
